@@ -1070,9 +1070,13 @@ class Interp(ExtMixin):
     # ---- snapshots: old(e), at_loop(e) ------------------------------------------------------
     def eval_in_snapshot(self, st, which, expr):
         if which == "old":
-            if not self.old_stack:
+            if self.old_stack:
+                snap = self.old_stack[-1]
+            elif (getattr(st, "entry", None) is not None and self.contract is not None and st.frames and st.frames[0].func == self.contract.qualname
+                  and all(f.func == "<lambda>" or f.func.startswith("spec:") for f in st.frames[1:])):
+                snap = st.entry  # loop invariant of the function under contract: old() = the state at function entry
+            else:
                 raise Unsupported("old() outside a postcondition")
-            snap = self.old_stack[-1]
         else:
             if not self.loop_snap_stack:
                 raise Unsupported("at_loop() outside a loop invariant")
